@@ -26,7 +26,20 @@ CHECKS = {
         'plans and random push/pull/peek histories over prefixes that extend one another are replayed and validated by TLC. (Concurrent producers/consumers: see the C05 monitor.)',
    technique='TLA+ queue operators checked by TLC; plan replay and trace validation'),
 }
-NOTES = {'C03': SEQ_NOTE, 'C04': SEQ_NOTE, 'C09': SEQ_NOTE, 'C10': SEQ_NOTE}
+CONC_NOTE = ('Trusted: SQLite WAL snapshot isolation, BEGIN IMMEDIATE exclusion and atomic commit; POSIX file semantics; TLC; the interposition layer and scheduler (harness/interpose.py, sched.py). '
+             'Clients are real threads (own or shared Cache objects) scheduled at every SQLite statement / file operation outside a held write transaction; '
+             'schedules: exhaustive up to 2 preemptions for 2-client programs (capped), PCT and random beyond. A trace that reaches a listed known finding is not judged beyond that event.')
+CHECKS.update({
+ 'C05': dict(level='model_checking', ref='DESIGN.md 3.5, 4.3, 6 (C05)',
+   text='Property-level monitor in TLA+ (MonitorTrace: environment state = committed contents, write lock, value files, calls in flight; StepRefinement against the CacheOps operators at each COMMIT; lock-free lookups explained by some contents committed during the call, with the one tolerated miss). '
+        'TLC validates every recorded execution of small concurrent programs run on real threads under a deterministic scheduler that enumerates interleavings of database statements and file operations.',
+   technique='TLA+ linearizability/refinement monitor evaluated by TLC on scheduler-enumerated executions of the real code'),
+ 'C06': dict(level='model_checking', ref='DESIGN.md 3.5, 6 (C06)',
+   text='Transaction blocks in the same monitor: a block is a private working copy started when the lock is obtained, its calls are CacheOps steps on that copy, the one COMMIT of the outermost block must publish exactly that copy, ROLLBACK discards it; commits/rollbacks by inner calls or blocks, a second holder of the lock and foreign commits are rejected. '
+        'Programs: bodies of reads/writes/removals over inline and file values, nested blocks, a raise after every body position, concurrent readers/writers, a second thread on the same object; via Cache/Deque/Index.transact.',
+   technique='TLA+ block-atomicity monitor evaluated by TLC on scheduler-enumerated executions'),
+})
+NOTES = {'C05': CONC_NOTE, 'C06': CONC_NOTE, 'C03': SEQ_NOTE, 'C04': SEQ_NOTE, 'C09': SEQ_NOTE, 'C10': SEQ_NOTE}
 
 checks = []
 for pid, c in sorted(CHECKS.items()):
